@@ -11,6 +11,7 @@ from vf import core, graph
 
 META = {
     'property_id': 'C12',
+    'confirm_by_replay': True,   # bin/check re-executes the stimulus of every violation before it is reported
     'level': 'model_checking',
     'technique': 'TLA+ spec of the assignment algorithm (GroupOps.tla/Groups.tla, transcribed from groups.go incl. the '
                  'shared per-consumer counter and StreamDeleted as part of the DELETE_STREAM apply) checked exhaustively by TLC; '
